@@ -298,10 +298,14 @@ class ReadSetReader:
         """
         if regions is None:
             regions = [(0, None)]
-        for s, e in regions:
+        previous_end = 0
+        for s, e in sorted(regions, key=lambda region: region[0]):
             for alignment in self._reader.fetch(
                 reference=chromosome, sample=sample, start=s, end=e
             ):
+                if alignment.bam_alignment.reference_start < previous_end:
+                    # also overlaps an earlier region, has been yielded already
+                    continue
                 # TODO handle additional alignments correctly!
                 # find out why they are sometimes overlapping/redundant
                 if (
@@ -313,6 +317,9 @@ class ReadSetReader:
                 ):
                     continue
                 yield alignment
+            if e is None:
+                break
+            previous_end = max(previous_end, e)
 
     def has_reference(self, chromosome):
         return self._reader.has_reference(chromosome)
